@@ -195,16 +195,19 @@ func (o op) String() string {
 }
 
 func alphabet() []op {
-	a := []op{{"rotate", 0}, {"dec", 1}, {"dec", 2}, {"enc", 0}, {"enc", 2}, {"win", 3}, {"trim", 2},
+	a := []op{{"rotate", 0}, {"dec", 1}, {"dec", 2}, {"enc", 0}, {"enc", 2}, {"win", 3}, {"trim", 2}, {"trim", 3},
 		{"backup", 0}, {"restore", 0}, {"allowdel", 0}, {"recreate", 0}}
 	if vout.Thorough() {
-		a = append(a, op{"dec", 3}, op{"enc", 3}, op{"win", 2}, op{"trim", 3}, op{"restore-noforce", 0})
+		a = append(a, op{"dec", 3}, op{"enc", 3}, op{"win", 2}, op{"restore-noforce", 0})
 	}
 	return a
 }
 
 func seeds() [][]op {
-	s := [][]op{nil, {{"rotate", 0}, {"rotate", 0}}, {{"rotate", 0}, {"rotate", 0}, {"win", 3}}}
+	s := [][]op{nil, {{"rotate", 0}, {"rotate", 0}}, {{"rotate", 0}, {"rotate", 0}, {"win", 3}},
+		// an archive that has ALREADY been trimmed once (its first entry is no longer version 0/1):
+		// the starting point for a second trim and for moving keys back out of the archive
+		{{"rotate", 0}, {"rotate", 0}, {"rotate", 0}, {"dec", 2}, {"trim", 2}, {"win", 3}}}
 	if vout.Thorough() {
 		s = append(s, []op{{"rotate", 0}, {"rotate", 0}, {"rotate", 0}, {"win", 3}, {"trim", 2}, {"backup", 0}})
 	}
@@ -1258,6 +1261,95 @@ func (w *world) battery(full bool) {
 	}
 	w.recs = append(w.recs, w.pending...)
 	w.pending = nil
+	if full {
+		w.batteryMixedBatch()
+	}
+}
+
+// batteryMixedBatch: the items of one batch request are independent.  For a
+// ciphertext sealed WITH associated data (A) and one sealed WITHOUT (P), same
+// context, every ordered batch of up to three items over
+//   {A+its aad, A without aad, P without aad, P with an aad, A with another aad}
+// is decrypted in ONE request; each item is judged exactly as if sent alone.
+func (w *world) batteryMixedBatch() {
+	var ra, rp *rec
+	for _, r := range w.recs {
+		if r.Kind != 'e' || !w.live(r) {
+			continue
+		}
+		if r.AAD != 0 && ra == nil {
+			ra = r
+		}
+	}
+	if ra == nil {
+		return
+	}
+	for _, r := range w.recs {
+		if r.Kind == 'e' && w.live(r) && r.AAD == 0 && r.Ctx == ra.Ctx && rp == nil {
+			rp = r
+		}
+	}
+	if rp == nil {
+		return
+	}
+	other := 1
+	if ra.AAD == 1 {
+		other = 2
+	}
+	type item struct {
+		r   *rec
+		aad int
+		exp int
+		nm  string
+	}
+	kinds := []item{
+		{ra, ra.AAD, expMatch, "A+aad"}, {ra, 0, expFail, "A-noaad"}, {rp, 0, expMatch, "P-noaad"}, {rp, other, expFail, "P+aad"}, {ra, other, expFail, "A+otheraad"},
+	}
+	var seqs [][]int
+	for a := range kinds {
+		seqs = append(seqs, []int{a})
+		for b := range kinds {
+			seqs = append(seqs, []int{a, b})
+			for c := range kinds {
+				seqs = append(seqs, []int{a, b, c})
+			}
+		}
+	}
+	for _, sq := range seqs {
+		var items []interface{}
+		var names []string
+		for _, k := range sq {
+			it := map[string]interface{}{"ciphertext": kinds[k].r.Out}
+			if ra.Ctx != 0 {
+				it["context"] = ctxVals[ra.Ctx]
+			}
+			if kinds[k].aad != 0 {
+				it["associated_data"] = aadVals[kinds[k].aad]
+			}
+			items = append(items, it)
+			names = append(names, kinds[k].nm)
+		}
+		d, fail := w.do(logical.UpdateOperation, "decrypt/k", map[string]interface{}{"batch_input": items})
+		rs := batchResults(d)
+		if len(rs) != len(sq) {
+			if fail == "" {
+				w.bad("decrypt:batch-shape", "mixed batch %v returned %d results", names, len(rs))
+			}
+			// a batch in which every item fails is answered with an error as a whole: every item was refused
+			for _, k := range sq {
+				if kinds[k].exp == expMatch && fail != "" {
+					w.bad("decrypt:mixed-batch-refused", "mixed batch %v was refused as a whole (%s) although item %s is a valid request", names, fail, kinds[k].nm)
+				}
+			}
+			continue
+		}
+		w.count("mixed_batches")
+		for i, k := range sq {
+			e, _ := rs[i]["error"].(string)
+			p, _ := rs[i]["plaintext"].(string)
+			w.judgeDecrypt(kinds[k].r, fmt.Sprintf("mixed-batch %v item %d (%s)", names, i, kinds[k].nm), kinds[k].exp, p, e)
+		}
+	}
 }
 
 // canon: two histories with the same canonical key have the same futures: the window,
